@@ -24,6 +24,8 @@ INST = "sd.ServiceInstance"
 
 
 def check(run, prog, tier):
+    from . import model as _model
+    _model.audit(run, prog, 'C15')
     run.explanation = (
         "SendCollector is a two-state object (open, done).  Exactly-once and in-order delivery reduce to: append "
         "only while open (who-may-call + dominating test in the same synchronous step), the flush marks done "
@@ -224,6 +226,14 @@ def check(run, prog, tier):
     pos = {fi.qual for fi, r, e in scan.callers_of(qs.qual)}
     run.floor("U5-query-control", len(pos), 1)
 
+    # ---- U6 "in the order they were queued" holds for the datagram, not only for the list handed to send_sd: the message
+    # that is built keeps the entries in the order of that list (C02's codec rules for the header copy and the writer)
+    from .sdcodec import codec_keeps
+    with run.part("U6 order on the wire"):
+        codec_keeps(run, prog, tier, "U6", ("SOMEIPSDHeader.assign_option_indexes:shared-array-collected",
+                                            "SOMEIPSDHeader.build:flags-reserved-len32-entries-len32-options"),
+                    "the entries of one collection window leave in another order than they were queued")
+
 
 TIMING_ONLY = ("timer-uses-the-timeout", "deadline-not-moved")
 
@@ -231,12 +241,12 @@ TIMING_ONLY = ("timer-uses-the-timeout", "deadline-not-moved")
 def queue_exactly_once(run, prog, tier, rule, timing=False):
     """'what is queued is transmitted exactly once, in order, to its destination' as supporting obligations of
     another property (the announcer's answers / offers / stop-offers all travel through queue_send)"""
+    import sys
     from .. import report
-    sub = report.Run("C15", tier, run.seed, quiet=True)
-    check(sub, prog, tier)
+    sub = report.subrun(sys.modules[__name__], "C15", prog, tier, run.seed)
     n = 0
     for o in sub.obs:
-        if not timing and any(k in o.construct for k in TIMING_ONLY):
+        if o.rule in ("U6", "OM") or (not timing and any(k in o.construct for k in TIMING_ONLY)):
             continue  # *when* the flush happens matters only to properties that bound the delay
         n += 1
         run.ob(rule, o.construct, o.ok, o.loc, o.msg, o.detail, o.nontrivial)
